@@ -70,3 +70,127 @@ package run
 //@           result.data.FailedIterationCount == r.snapshot.FailedIterationDurations.Count && result.data.DroppedIterationCount == r.snapshot.DroppedIterationCount
 //@   ensures [period] result.data.Period == r.snapshot.Period && deref(result.data.SuccessfulIterationDurationsForPeriod) == deref(r.snapshot.SuccessfulIterationDurationsForPeriod)
 //@   ensures [view] result.view == r.views.progress
+//@
+//@ // ---- Run.Do: the order of one run (C06 run level, C16 reset-before-setup, C05 skeleton).
+//@ // GRstage: 0 start, 1 metrics reset, 2 setup done, 3 iterations running, 4 iterations finished and reporter stopped,
+//@ // 5 totals taken. GRsetups / GRteardowns / GRruns count the calls.
+//@ frozen {C05,C06,C16} Run.scenarioLogger Run.views Run.output Run.metrics Run.result Run.trigger Run.progressRunner Run.activeScenario Run.pusher
+//@ frozen {C05,C06,C16} Result.views Result.progressStats
+//@ ghost var GRstage int
+//@ ghost var GRsetups int
+//@ ghost var GRteardowns int
+//@ ghost var GRruns int
+//@ ghost var GRsetupFailed bool
+//@ ghost var GRsummaries int
+//@
+//@ pred wfRun(r *Run) = r != nil && r.scenarioLogger != nil && r.views != nil && r.output != nil && r.metrics != nil && r.metrics.Iteration != nil && r.metrics.Setup != nil &&
+//@     r.result != nil && wfResult(r.result) && r.result.views != nil && r.result.progressStats != nil && r.trigger != nil && r.trigger.Trigger != nil &&
+//@     wfRunner(r.progressRunner) && r.activeScenario != nil && r.activeScenario.t != nil && r.activeScenario.Teardown != nil
+//@
+//@ func (*Run).fail
+//@   props C06 C05
+//@   requires r != nil && r.result != nil && wfResult(r.result)
+//@   modifies r.result.errors
+//@   ensures wfResult(r.result) && len(r.result.errors) == old(len(r.result.errors)) + 1
+//@
+//@ func (*Run).pushMetrics
+//@   props C06 C05 C16
+//@   requires r != nil && (r.pusher != nil ==> r.output != nil)
+//@   modifies nothing
+//@
+//@ func (*Run).printSummary
+//@   props C06 C05 C19
+//@   requires r != nil && r.output != nil && r.result != nil && wfResult(r.result) && r.result.views != nil
+//@   requires r.result.snapshot.SuccessfulIterationDurations.Count <= 1000000000000000 && r.result.snapshot.FailedIterationDurations.Count <= 1000000000000000 &&
+//@            r.result.snapshot.DroppedIterationCount <= 1000000000000000 && r.result.runOptions.MaxFailuresRate <= 1000
+//@   modifies nothing
+//@
+//@ func (*Run).teardownActiveScenario
+//@   props C06 C05
+//@   requires r != nil && r.output != nil && r.result != nil && wfResult(r.result) && r.result.views != nil && r.activeScenario != nil && wfT(r.activeScenario.t) &&
+//@            isBound(r.activeScenario.Teardown, r.activeScenario.t, "teardown")
+//@   dyncall Teardown : method testing.(*T).teardown(r.activeScenario.t)
+//@   ensures [error-iff-teardown-failed] len(r.result.errors) == old(len(r.result.errors)) + (r.activeScenario.t.teardownFailed ? 1 : 0) && wfResult(r.result)
+//@   ensures [cleanups] forall j int :: 0 <= j && j < old(len(r.activeScenario.t.teardownStack)) ==> Gcalled[j] == old(Gcalled[j]) + 1
+//@
+//@ func (*Run).reportSetupFailure
+//@   props C06 C05
+//@   requires r != nil && r.output != nil && r.result != nil && wfResult(r.result) && r.result.views != nil
+//@   ensures [setup-error] result == r.result && len(r.result.errors) == old(len(r.result.errors)) + 1 && wfResult(r.result)
+//@
+//@ func (*Result).Setup
+//@   props C19 C06 C05
+//@   requires r != nil && r.views != nil && wfResult(r)
+//@   modifies nothing
+//@   ensures result != nil
+//@
+//@ func (*Result).Teardown
+//@   props C19 C06 C05
+//@   requires r != nil && r.views != nil && wfResult(r)
+//@   modifies nothing
+//@   ensures result != nil
+//@
+//@ func (*Result).MaxDurationElapsed
+//@   props C19 C06 C05
+//@   requires r != nil && r.views != nil && wfResult(r)
+//@   modifies nothing
+//@   ensures result != nil
+//@
+//@ func (*Result).Interrupted
+//@   props C19 C06 C05
+//@   requires r != nil && r.views != nil && wfResult(r)
+//@   modifies nothing
+//@   ensures result != nil
+//@
+//@ func (*Result).MaxIterationsReached
+//@   props C19 C06 C05
+//@   requires r != nil && r.views != nil && wfResult(r)
+//@   modifies nothing
+//@   ensures result != nil
+//@
+//@ func (*Result).RecordStarted
+//@   props C05 C06
+//@   requires r != nil
+//@   modifies r.startTime
+//@
+//@ func (*Result).RecordTestFinished
+//@   props C05 C06
+//@   requires r != nil
+//@   modifies r.TestDuration
+//@
+//@ func (*Result).HasDroppedIterations
+//@   props C05
+//@   requires r != nil
+//@   modifies nothing
+//@   ensures result == (r.snapshot.DroppedIterationCount > 0)
+//@
+//@ fnspec trigFn(ctx context.Context, output *ui.Output, workers *workers.PoolManager, options options.RunOptions)
+//@   modifies all
+//@
+//@ func (*Run).run
+//@   props C05 C06
+//@   requires wfRun(r) && r.options.Concurrency >= 1
+//@   dyncall Trigger : trigFn
+//@   ghost before call dyn:Trigger : assert [one-pool-manager] GRruns == 0 ; GRruns = GRruns + 1
+//@   ghost at entry : GRruns = 0
+//@
+//@ func (*Run).Do
+//@   props C05 C06 C16
+//@   requires wfRun(r) && r.options.Concurrency >= 1 && !closed(r.progressRunner.stopped) && ctx != nil
+//@   requires wfT(r.activeScenario.t) && !r.activeScenario.t.tearingDown && !r.activeScenario.t.failed && r.activeScenario.scenario != nil && r.activeScenario.scenario.ScenarioFn != nil &&
+//@            r.activeScenario.m != nil && r.activeScenario.m.Setup != nil && isBound(r.activeScenario.Teardown, r.activeScenario.t, "teardown")
+//@   requires r.result.snapshot.SuccessfulIterationDurations.Count <= 1000000000000000 && r.result.snapshot.FailedIterationDurations.Count <= 1000000000000000 &&
+//@            r.result.snapshot.DroppedIterationCount <= 1000000000000000 && r.result.runOptions.MaxFailuresRate <= 1000
+//@   ghost at entry : GRstage = 0 ; GRsetups = 0 ; GRteardowns = 0 ; GRsummaries = 0
+//@   ghost after call (*Metrics).Reset : assert [reset-first] GRstage == 0 ; GRstage = 1
+//@   ghost before call (*ActiveScenario).Setup : assert [reset-before-setup] GRstage == 1 ; assert [setup-once] GRsetups == 0 ; GRsetups = GRsetups + 1
+//@   ghost after call (*ActiveScenario).Setup : GRstage = 2
+//@   ghost after call (*ActiveScenario).Failed #0 : GRsetupFailed = ret0
+//@   ghost before call (*Run).run : assert [iterations-only-after-successful-setup] GRstage == 2 && GRsetups == 1 && !GRsetupFailed ; GRstage = 3
+//@   ghost before call (*Runner).Stop : assert [reporter-stopped-after-iterations] GRstage == 3 ; GRstage = 4
+//@   ghost before call (*Result).GetTotals : assert [totals-after-reporter-stopped] GRstage == 4 && closed(r.progressRunner.stopped) ; GRstage = 5
+//@   ghost before call (*Run).teardownActiveScenario : assert [teardown-after-iterations] GRsetups == 1 && GRstage != 3 && GRstage != 4 ; assert [teardown-once] GRteardowns == 0 ; GRteardowns = GRteardowns + 1
+//@   ghost before call (*Run).printSummary : assert [summary-after-teardown] GRsetups == 1 ==> GRteardowns == 1 ; GRsummaries = GRsummaries + 1
+//@   ensures [teardown-ran] GRsetups == 1 && GRteardowns == 1 && GRsummaries == 1
+//@   ensures [result] result.1 == nil && result.0 == r.result
+//@   ensures [complete] !GRsetupFailed ==> GRstage == 5
